@@ -220,6 +220,17 @@ func (m *Machine) intrinsic(fn *ssa.Function, args []Val, caller *frame) handler
 			}
 			return m.tape[i]
 		}
+	case "vTapeScript":
+		return func() Val {
+			m.script = nil
+			for _, a := range args {
+				w := uint32(argInt(a))
+				m.script = append(m.script, byte(w>>24), byte(w>>16), byte(w>>8), byte(w))
+			}
+			return nil
+		}
+	case "vTapeScriptEnd":
+		return func() Val { m.script = nil; return nil }
 	case "vFaultAt":
 		return func() Val {
 			m.fault = &faultSpec{read: m.reads + argInt(args[0]), n: argInt(args[1])}
